@@ -228,7 +228,7 @@ def run(ctx):
             if ctx.mine(i):
                 compare(ctx, [{"Variable": "$.v", "StringMatches": p, "Next": "Y"}], True, {"v": s}, "wrongtype" if "\\" in p else "typed")
     # 6. random deeper trees
-    n_random = ctx.pick(3000, 200000)
+    n_random = ctx.pick(3000, 1600000)
     for k in range(n_random):
         i += 1
         if not ctx.mine(i):
